@@ -19,7 +19,7 @@ WHAT TO PRODUCE
 2. The existing test suite must still pass with your change. The reference command is:
    cd /tmp/seed_{pid} && /venv/bin/python -m pytest -ra -q -p no:cacheprovider --timeout=900 --continue-on-collection-errors -x -q beartype_test 2>&1 | tail -30
    NOTE: in this sandbox exactly these 15 tests ALWAYS fail even on the unmodified tree (ignore them; do not use -x if it stops on them — better run without -x): test_is_hint_pep585_builtin, test_get_hint_pep_sign, test_is_hint_pep_type_typing, test_reduce_hint_api_numpy, test_reduce_hint_ignorable, test_beartype, test_beartype_warnings, test_door_die_if_unbearable, test_door_die_if_unbearable_warnings, test_door_is_bearable, test_door_is_bearable_warnings, test_door_typehint_die_if_unbearable, test_door_typehint_is_bearable, test_claw_fastmcp, test_poetry. Every other test that passes on the unmodified tree (422 of them) must still pass. A full run takes about 5 minutes; you may first run the most relevant test subdirectories, but do one full run at the end and report the pass/fail counts.
-3. A demonstration program /tmp/seed_{pid}/SEED/demo.py that uses only beartype's PUBLIC API (plus, if the property is about sampler draws, it may pin the draw by doing `import random; random.getrandbits = lambda n: <value>` BEFORE importing beartype), exits with status 0 on the UNMODIFIED tree and exits non-zero (assertion failure) on your MODIFIED tree. Run it both ways (use ``git diff -- beartype > /tmp/my.patch; git checkout -- beartype; ...; git apply /tmp/my.patch` inside your worktree; do NOT use `git stash`, which is shared between worktrees) and show both results.
+3. A demonstration program /tmp/seed_{pid}/SEED/demo.py that uses only beartype's PUBLIC API (plus, if the property is about sampler draws, it may pin the draw by doing `import random; random.getrandbits = lambda n: <value>` BEFORE importing beartype), exits with status 0 on the UNMODIFIED tree and exits non-zero (assertion failure) on your MODIFIED tree. Run it both ways (use ``git diff -- beartype > /tmp/seed_{pid}.patch; git checkout -- beartype; ...; git apply /tmp/seed_{pid}.patch` inside your worktree; do NOT use `git stash`, which is shared between worktrees) and show both results.
 4. Save into /tmp/seed_{pid}/SEED/: patch.diff (output of `git -C /tmp/seed_{pid} diff -- beartype`), demo.py, and notes.md (which property it breaks and how, what exactly is needed for the breakage to manifest, what you ran and the results, including the final test-suite counts).
 
 Leave the worktree with your change APPLIED at the end (and the SEED directory present). Do not commit. Do not create other worktrees. Be efficient: read the anchored files first, pick one good change, verify, and finish. In your final answer, summarise the change, what it needs to manifest, and the verification results.''')
